@@ -100,6 +100,16 @@ pub fn documents(depth: usize) -> Vec<DVal> {
     let big = shapes(depth);
     let small = shapes(1);
     let mut out = vec![];
+    // literal root keys that merely look like paths: a path never addresses them
+    for (k, x) in [("a.b", big[7].clone()), ("a[0]", big[3].clone()), ("a.a", big[0].clone()), ("b[1].a", big[1].clone()), ("a.b.a", big[0].clone())] {
+        for base in [DVal::obj(vec![]), DVal::obj(vec![("a", big[9].clone())]), DVal::obj(vec![("a", DVal::Arr(vec![big[0].clone()])), ("b", big[1].clone())])] {
+            let mut d = base;
+            d.set(k, x.clone());
+            let mut n = 0;
+            label(&mut d, &mut n);
+            out.push(d);
+        }
+    }
     for x in &big {
         for (j, y) in small.iter().enumerate() {
             if j % 3 != 0 && out.len() % 2 == 0 {
